@@ -16,7 +16,7 @@ RULE = ("explicit-state breadth-first search from the empty sandbox over histori
         "C hostile schema/operation/tag names, D hostile title}, meta in {none, poetry}, overwrite in {no, yes}, location in "
         "{default-from-title in cwd, --output-path}) and user edits (add a file at the project root, at the package root, modify a "
         "generated file), also with generate_all_tags and with post hooks that leave a trace, through the real typer CLI; states = full content of the sandbox + flavours generated per directory, "
-        "deduplicated on a canonical hash; every transition audited with sys.addaudithook; quick: depth 4; thorough: depth 4 over the full command set (5 documents, both flavours, both locations) and depth 5 over a 15-command core set")
+        "deduplicated on a canonical hash; every transition audited with sys.addaudithook; quick: depth 4; thorough: depth 4 over the full command set (5 documents, both flavours, both locations) and depth 5 over a 15-command core set; a generation that fails while writing (un-encodable text) must keep the user's files; custom templates taken from a user directory outside the output")
 FLOOR = 0.3
 ASSUMPTIONS = ["audit hooks see every open-for-write/mkdir/remove/rename/rmtree", "typer's CliRunner reproduces the command line behaviour"]
 
